@@ -391,8 +391,20 @@ func (n NaturalLanguageValues) MarshalJSON() ([]byte, error) {
 	}
 	b.Write([]byte{'{'})
 	empty := true
-	for _, val := range n {
+	for i, val := range n {
 		if len(val.Ref) == 0 || len(val.Value) == 0 {
+			continue
+		}
+		// NOTE: a JSON object can not repeat a member name: of several entries with the same tag
+		// the first one, which is the one Get() returns, is written
+		repeated := false
+		for _, prev := range n[:i] {
+			if prev.Ref == val.Ref && len(prev.Value) > 0 {
+				repeated = true
+				break
+			}
+		}
+		if repeated {
 			continue
 		}
 		if !empty {
